@@ -24,6 +24,16 @@ class ParamBase:
         self.trigger_var = [trigger_var] if isinstance(trigger_var, str) else trigger_var
         self.trigger_fun = trigger_fun
         self.dim = dim
+        # Store every parameter in the 64-bit type of its kind. numpy keeps a narrow dtype next to a Python literal
+        # (float32 * 0.1 is rounded to float32, int32 * 60000 wraps) whereas numba promotes to 64 bits, so a narrow
+        # parameter made the numba-rendered module a different model from the other backends.
+        kind = np.dtype(dtype).kind
+        if kind == 'f':
+            dtype = np.float64
+        elif kind in 'iu':
+            dtype = np.int64
+        elif kind == 'c':
+            dtype = np.complex128
         self.dtype = dtype
         self.sparse = sparse
         self.__v = None
